@@ -1,5 +1,5 @@
 //! unit: u02e
-//! properties: C02 C14 C03
+//! properties: C02 C14 C03 C10
 //! note: failing an HTLC backwards (channelmanager.rs): get_htlc_forward_failure whole (an HTLC that came in over a blinded path is failed without revealing anything: from the introduction node with an invalid_onion_blinding error built by us, from a blinded node as malformed with a zeroed hash; any other HTLC carries the given error encrypted for the inbound hop, wrapped a second time for a trampoline or phantom hop; always for THIS htlc id), the forwarded-HTLC arm of fail_htlc_backwards_internal (the failure is queued under the inbound channel's scid alias, behind the failures already queued there, and the event names the inbound channel), the duplicate-failure rule of its outbound-payment arm (the monitor's payment-complete update is released at once only if the payment took no notice of the failure and no queued event still carries that action)
 //! trusted: R5/R8: HTLCFailReason is a skeleton whose get_encrypted_failure_packet answers the uninterpreted encrypted(reason, inbound secret, secondary secret); HTLCFailReason::reason(code, data) records its arguments; `vec![0; 32]` -> zero_vec(32); `a.or(*b)` on Option<[u8; 32]> through the wrapper opt_or (std definition)
 //! trusted: R15 (deep slices): fail_htlc_backwards_internal: the body of the closure push_forward_htlcs_failure (entry API of the forward_htlcs map as an environment type with the std contracts, mutable-reference prophecy), the statements of the PreviousHopData arm (the closure is the recorder queue_failure; pending_events.lock().unwrap().push_back -> queue_event), the have_action / handle_post_event_actions statements of the OutboundRoute arm (R6 any as a loop; action equality structural)
